@@ -11,8 +11,10 @@ Model of `private/path/combinator` (`combinator.go`, `graph.go`).
                         its overwrite-on-same-key behaviour) and an exhaustive search over it.
 
 Abstractions (all named in registry `assumptions`):
-* a segment is the list of its AS entries with the fields the combinator reads; IAs, interface
-  ids, MTUs are `Nat`s; a 6-byte MAC is the big-endian number of its bytes; time is in
+* a segment is the list of its AS entries with the fields the combinator reads; an IA is the
+  full 64-bit ISD-AS value `uint64(addr.IA)` = ISD·2^48 + AS as ONE `Nat` (so two ASes with the same
+  AS number in different ISDs are different IAs; `isLong`/`filterLongPaths`, vertices and joins all
+  key on this full value, never on the AS number alone); interface ids, MTUs are `Nat`s; a 6-byte MAC is the big-endian number of its bytes; time is in
   milliseconds (`Info.Timestamp` is whole seconds, the hop-field TTL unit is 337.5 s);
 * the SHA-256 fingerprint of an interface list is the interface list itself;
 * `GetPaths` explores a queue in map-iteration order and sorts by (cost, #edges, segment ids,
